@@ -62,7 +62,7 @@ def _det_configs(tier, seed):
        f"pg.geno.Deduping(pg.geno.Sweeping(), hash_fn={_SUM}, max_proposal_attempts=2)",
        ['cond', 'many']),
       ('dedup-random', f"pg.geno.Deduping(pg.geno.Random(seed={s1}), max_proposal_attempts=6)",
-       ['c3', 'c2xc3', 'cond', 'float']),
+       ['c2xc3', 'c3', 'cond', 'float']),
       ('dedup-random',
        f"pg.geno.Deduping(pg.geno.Random(seed={s2}), max_duplicates=2, max_proposal_attempts=6)",
        ['c3', 'c2xc3']),
@@ -504,8 +504,8 @@ _W_CHECK = {
     'cache': "f=lambda g:g._cache",
     'cache_counts': "f=lambda g:{k:len(v) for k,v in g._cache.items()}",
     'cache_sorted': "f=lambda g:{k:sorted(v,key=repr) for k,v in g._cache.items()}",
-    'next': ("f=lambda g:[g.propose().metadata.get(k) for k in "
-             "('proposal_id','initial_population')]"),
+    'next': ("f=lambda g:(lambda d:[d.metadata.get(k) for k in "
+             "('proposal_id','initial_population')])(g.propose())"),
     'next_gen': "f=lambda g:g.propose().metadata.get('generation_id')",
 }
 
@@ -544,8 +544,9 @@ _OUT_OF_ORDER = ['rev2', 'late0']
 def _det_combos(tier, seed, n):
   """Yields (kind, algo_expr, space_name, pattern_name, class, events)."""
   for ci, (kind, algo_expr, spaces) in enumerate(_det_configs(tier, seed)):
-    if tier == 'quick':
-      spaces = [spaces[(seed + j) % len(spaces)] for j in range(min(2, len(spaces)))]
+    if tier == 'quick' and len(spaces) > 2:
+      # The first (smallest) space always; one of the others, rotated by seed.
+      spaces = [spaces[0], spaces[1 + seed % (len(spaces) - 1)]]
     for j, sp in enumerate(spaces):
       pats = _patterns(n, tier, seed, f'{algo_expr}-{sp}')
       if tier == 'quick':
@@ -607,8 +608,18 @@ def drv_recover_deterministic(tier, seed):
         chunks = [None]
         if snap['k'] >= 2 and variant == 'crash' and (not quick or ci % 3 == 0):
           chunks.append(snap['k'] // 2)
+        single_call = {}
         for chunk in chunks:
           key = (algo_expr, sp, pname, ci, variant, chunk)
+
+          def case(check, cid, ok, msg, wit):
+            # A failure of the split recovery is reported only if the same
+            # check passed for the single-call recovery (else: same defect).
+            if chunk is None:  # pylint: disable=cell-var-from-loop
+              single_call[check] = ok  # pylint: disable=cell-var-from-loop
+            elif not single_call.get(check, True):  # pylint: disable=cell-var-from-loop
+              return
+            rec.case(cid, key, ok, msg, wit)  # pylint: disable=cell-var-from-loop
           hist = _history(run, snap, variant)
           pre = 'det' if chunk is None else 'det.two-recover-calls'
           try:
@@ -620,16 +631,16 @@ def drv_recover_deterministic(tier, seed):
             continue
           ob = _observe(b)
           oa = snap['obs']
-          rec.case(f'{pre}.counts/{kind}', key, ob['counts'] == oa['counts'],
-                   f'recovered (num_proposals, num_feedbacks)={ob["counts"]}, '
-                   f'uninterrupted {oa["counts"]}',
-                   _witness(space_expr, algo_expr, snap, variant, 'counts', chunk))
+          case('counts', f'{pre}.counts/{kind}', ob['counts'] == oa['counts'],
+               f'recovered (num_proposals, num_feedbacks)={ob["counts"]}, '
+               f'uninterrupted {oa["counts"]}',
+               _witness(space_expr, algo_expr, snap, variant, 'counts', chunk))
           if oa.get('cache') is not None and ob.get('cache') is not None:
             ca = {k: len(v) for k, v in oa['cache'].items()}
             cb = {k: len(v) for k, v in ob['cache'].items()}
-            rec.case(f'{pre}.dedup-memory/{kind}', key, ca == cb,
-                     f'recovered key->count {cb}, uninterrupted {ca}',
-                     _witness(space_expr, algo_expr, snap, variant, 'cache_counts', chunk))
+            case('memory', f'{pre}.dedup-memory/{kind}', ca == cb,
+                 f'recovered key->count {cb}, uninterrupted {ca}',
+                 _witness(space_expr, algo_expr, snap, variant, 'cache_counts', chunk))
           want = allp[snap['k']:snap['k'] + m]
           if 'STOP' in want:
             want = want[:want.index('STOP') + 1]
@@ -638,11 +649,10 @@ def drv_recover_deterministic(tier, seed):
           if kind == 'dedup-random':
             cid += ('/rejected-duplicates-before-crash' if snap['rejected']
                     else '/no-rejected-duplicates-before-crash')
-          rec.case(cid, key, got == want,
-                   f'recovered instance continues with {got}, uninterrupted run with {want}',
-                   _witness(space_expr, algo_expr, snap, variant, 'continuation', chunk,
-                            m=len(want)),
-                   nontrivial=bool(want))
+          case('continuation', cid, got == want,
+               f'recovered instance continues with {got}, uninterrupted run with {want}',
+               _witness(space_expr, algo_expr, snap, variant, 'continuation', chunk,
+                        m=len(want)))
   return rec.result()
 
 
@@ -682,15 +692,16 @@ def _evo_checks(rec, pre, kind, single, cls, key, oa, ob, snap, nxt, b, wit, ded
   pop_ok = rec.case(
       f'{pre}.population/{order}', key, ob['pop'] == oa['pop'],
       f'recovered population {ob["pop"]}, uninterrupted {oa["pop"]}', wit('pop'))
-  if pop_ok and inner_ok:
-    rec.case(f'{pre}.population-ids/{order}', key, ob['pop_ids'] == oa['pop_ids'],
+  secondary = pop_ok and cls != 'out-of-order'
+  if secondary and inner_ok:
+    rec.case(f'{pre}.population-ids', key, ob['pop_ids'] == oa['pop_ids'],
              f'(proposal_id, feedback_sequence_number, generation_id) of the population members: '
              f'recovered {ob["pop_ids"]}, uninterrupted {oa["pop_ids"]}', wit('pop_ids'))
-  if pop_ok and oa['elites'] is not None:
-    rec.case(f'{pre}.nsga2-elites/{order}', key, ob['elites'] == oa['elites'],
+  if secondary and oa['elites'] is not None:
+    rec.case(f'{pre}.nsga2-elites', key, ob['elites'] == oa['elites'],
              f'recovered elites {ob["elites"]}, uninterrupted {oa["elites"]}', wit('elites'))
-  if pop_ok and oa['species'] is not None:
-    rec.case(f'{pre}.neat-species/{order}', key, ob['species'] == oa['species'],
+  if secondary and oa['species'] is not None:
+    rec.case(f'{pre}.neat-species', key, ob['species'] == oa['species'],
              f'recovered species {ob["species"]}, uninterrupted {oa["species"]}', wit('species'))
   if nxt is None:
     phase = 'phase-unknown'
@@ -699,7 +710,8 @@ def _evo_checks(rec, pre, kind, single, cls, key, oa, ob, snap, nxt, b, wit, ded
   gens_ok = True
   if inner_ok:
     gens_ok = rec.case(
-        f'{pre}.num_generations/{phase}', key, ob['gens'] == oa['gens'],
+        f'{pre}.num_generations/' + ('uninterrupted-run-still-at-0' if oa['gens'] == 0
+                                     else 'uninterrupted-run-beyond-0'), key, ob['gens'] == oa['gens'],
         f'recovered num_generations {ob["gens"]}, uninterrupted {oa["gens"]}', wit('gens'))
   if nxt is None or not (counts_ok and inner_ok):
     return
